@@ -13,6 +13,7 @@ import (
 	"hash/fnv"
 	"runtime"
 	"sort"
+	"strconv"
 	"sync"
 	"sync/atomic"
 	"testing/synctest"
@@ -369,11 +370,18 @@ func (t *Task) IsDone() bool { return t.done }
 
 //go:norace
 func (s *Sim) release(t *Task) {
+	// (no fmt here: fmt uses a sync.Pool, whose hand-offs would look like
+	// races while synchronisation events are hidden)
 	raceDisable()
 	s.mu.Lock()
 	if t.Name == "" {
-		s.roleCount[t.Role]++
-		t.Name = fmt.Sprintf("%s#%d", t.Role, s.roleCount[t.Role])
+		n := 0
+		for i := 0; i < s.ntasks; i++ {
+			if s.tasks[i].Role == t.Role && s.tasks[i].Name != "" {
+				n++
+			}
+		}
+		t.Name = t.Role + "#" + strconv.Itoa(n+1)
 	}
 	t.parked = false
 	s.running = t
